@@ -230,7 +230,10 @@ def execute(plan):
             culprit = [f for f in plan["faults"] if f["ch"] == ch]
             kind = fault_kind(culprit[0]) if culprit else "none"
             if not culprit:
-                harness_faults.append("job %s channel %s differs from golden with no fault on it (plan %s)" % (job["name"], ch, plan))
+                # Collateral of a fault on another channel (e.g. the database differs when the code writer never ran):
+                # the violation is reported for the faulted channel.  With no fault at all it is a harness problem.
+                if not plan["faults"]:
+                    harness_faults.append("job %s channel %s differs from golden in a fault-free run" % (job["name"], ch))
                 continue
             state = "missing" if out[ch] is None else ("unwritable-target" if ch in lost_real else "%d of %d bytes" % (len(out[ch]), len(g["out"][ch])))
             violations.append({
